@@ -292,7 +292,7 @@ def load_known_findings():
             line = line.strip()
             if not line.startswith('finding:'):
                 continue
-            body, _, text = line[len('finding:'):].partition('::')
+            body, _, text = line[len('finding:'):].partition(' :: ')
             kv = dict(tok.split('=', 1) for tok in body.split() if '=' in tok)
             out.append({'property': kv.get('property'), 'rule': kv.get('rule'), 'key': kv.get('key'), 'text': text.strip()})
     return out
@@ -354,8 +354,8 @@ def run_check(prop, tier, repo, seed=0, replay=None):
         for m in R.broken_msgs:
             lines.append('ANALYSIS-BROKEN: property=%s %s' % (prop, m))
     os.makedirs(os.path.join(EVIDENCE_DIR, 'replay'), exist_ok=True)
-    if violations and code == 0:
-        code = 1
+    if violations:
+        code = 1  # a concrete violation outranks analysis-broken (floors missed because a construct was removed)
     for i in violations:
         lines.append('%s: [%s/%s] %s: %s' % (i.site, prop, i.rule, i.key, i.msg))
         if code == 1:
